@@ -648,7 +648,7 @@ func init() {
 	AddOp("c05state", (*Sim).opC05State)
 	simrt.Register("C05", &simrt.PropSpec{Fn: runC05, NonTrivial: c05NonTrivial,
 		Rule: "mixed multi-actor histories; each probe builds a fresh relay that a dry run on a discarded cache context shows payable, then corrupts exactly one thing: a signed field changed after signing (provider, spec id, lava chain id, epoch, session id, CuSum, relay num, content hash, QoS report, QoS excellence report, unresponsive list, signature bytes), a re-signed but semantically invalid variant (provider != sender, unknown spec, other lava chain id, future/negative/out-of-memory epoch, signed by a non-developer or by the provider itself), sender != provider, or a removed state precondition (developer key deleted, project disabled, spec disabled by governance, provider frozen/unstaked, provider outside the pairing); corrupted relays (of every kind, including those that name another provider or are sent by another provider) are also hidden in one message with good relays of the sender, each payable on its own: after one, before one, between two, after two; the re-signed 'provider != sender' variant mostly names a provider of the same pairing, so that naming the sender is the only precondition that fails. Oracles on every relay-payment tx of the run: rejected => full state digest (all stores + bank) unchanged; accepted => every statement precondition held on the pre-state per the chain's own queries (developer of an enabled project with a subscription at the relay's block, provider == sender, lava chain id, epoch not future / in memory, spec enabled, VerifyPairing valid) and the relay is not one the harness corrupted; the uncorrupted twin is then sent and must be paid. Non-trivial = >=2 paid valid relays, >=2 rejected corrupted relays, >=10 accepted ops",
-		Real:    chainReal, Stubbed: chainStub, Assume: append([]string{"a MsgRelayPayment is rejected as a whole when any of its relays is rejected (current handler behaviour), so 'rejected relay => nothing changed' is checked per transaction", "a field changed after signing makes the recovered signer an unrelated address (probability of hitting a developer key is negligible)"}, chainAssume...)})
+		Real: chainReal, Stubbed: chainStub, Assume: append([]string{"a MsgRelayPayment is rejected as a whole when any of its relays is rejected (current handler behaviour), so 'rejected relay => nothing changed' is checked per transaction", "a field changed after signing makes the recovered signer an unrelated address (probability of hitting a developer key is negligible)"}, chainAssume...)})
 }
 
 var _ = stakingtypes.Description{}
